@@ -682,6 +682,22 @@ def site_classification():
     out["counts"]["DIFFERENTIAL_ONLY_error_construction_path_C12"] = len(rpin)
     out["unclassified_source_sites"] += [fmt(k) for k in rgen if k not in rpin]
     out["classified_but_not_in_source"] += [fmt(k) for k in rpin if k not in rgen]
+    # error/{format,mod,kind,context}.rs: modelled in Errors/RenderModel.v (Panic 175, 276), pinned by C01_error_tables_match
+    try:
+        et = open(os.path.join(th, "Gen", "ErrorCtx.v")).read()
+        et = et[et.index("Definition gen_format_sites"):]
+        fs = re.findall(r'\("([^"]+)", "([^"]+)", (\d+)\)', et)
+        k2 = text.index("Theorem C01_error_tables_match")
+        pinned = re.findall(r'\("([^"]+)", "([^"]+)", (\d+)%N\)', text[k2:text.index("Proof.", k2)])
+        label = "proved_for_every_error_value_error_rs"
+        out["classes"][label] = ["error/*.rs %s %s #%s" % k for k in pinned]
+        out["meaning"][label] = ("unwrap sites of error/format.rs and error/mod.rs, visible in Errors/RenderModel.v and dead for EVERY "
+                                 "error value / every constructor argument (C01_render_total, C01_conflict_ctors_total)")
+        out["counts"][label] = len(pinned)
+        out["unclassified_source_sites"] += ["error/*.rs %s %s #%s" % k for k in fs if k not in pinned]
+        out["classified_but_not_in_source"] += ["error/*.rs %s %s #%s" % k for k in pinned if k not in fs]
+    except (OSError, ValueError):
+        pass
     return out
 
 
